@@ -801,3 +801,48 @@ def unvalidated_elements(check: Check, repo: Repo, rule: str = "UNVALIDATED-ELEM
                          f"under {tested[0]}" if tested else f"`{var}` has not been kind-checked here: a malformed entry raises AttributeError out of validate_schema")
     if n < 3:
         raise AnalysisError("UNVALIDATED-ELEMENT: element attribute reads not found in type/validate.py")
+
+
+def deprecation_direction(check: Check, repo: Repo, rule: str = "DEPRECATION-DIRECTION") -> None:
+    import itertools as _it
+
+    from rules.language_rules import _BoolFold
+
+    check.rule(
+        rule,
+        "validate_type_implements_interface: the 'must not be deprecated' report, folded over the four combinations of "
+        "{implementation field deprecated, interface field deprecated} (the flag computation before it included), is made "
+        "exactly for (deprecated, not deprecated). The other asymmetric case - the interface field is deprecated, an "
+        "implementation keeps its field un-deprecated - is legal; a check made symmetric (`a != b`) rejects a valid schema "
+        "and, through assert_valid_schema, every request against it, the introspection query included",
+    )
+    ci = ClassIndex(repo).get("type.validate", "SchemaValidationContext")
+    fn = ci.methods().get("validate_type_implements_interface")
+    if fn is None:
+        raise AnalysisError("validate_type_implements_interface not found")
+    guards = [i for i in walk_body(fn) if isinstance(i, ast.If) and any(
+        isinstance(x, ast.Constant) and isinstance(x.value, str) and "must not be deprecated" in x.value for s in i.body for x in ast.walk(s))]
+    if len(guards) != 1:
+        raise AnalysisError("validate_type_implements_interface: deprecation report not found")
+    g = guards[0]
+    # flags assigned before the test, in the same block
+    blk = parent(g)
+    body = getattr(blk, "body", [])
+    prefix = [s for s in body[: body.index(g)] if isinstance(s, ast.Assign) and len(s.targets) == 1 and isinstance(s.targets[0], ast.Name)] if g in body else []
+    T, I = "type_field.deprecation_reason is None", "iface_field.deprecation_reason is None"
+    bad = []
+    for t_dep, i_dep in _it.product((False, True), repeat=2):
+        fold = _BoolFold()
+        val = {T: not t_dep, I: not i_dep}
+        env: dict = {}
+        for s in prefix[-4:]:
+            if any(isinstance(x, ast.Attribute) and x.attr == "deprecation_reason" for x in ast.walk(s.value)):
+                env[s.targets[0].id] = fold.ev(s.value, env, val)
+        got = bool(fold.ev(g.test, env, val))
+        unknown = [a for a in fold.atoms if a not in (T, I)]
+        if unknown:
+            raise AnalysisError(f"validate_type_implements_interface: deprecation test uses other atoms {unknown}")
+        want = t_dep and not i_dep
+        if got != want:
+            bad.append(f"implementation {'deprecated' if t_dep else 'not deprecated'} / interface {'deprecated' if i_dep else 'not deprecated'}: reported={got}, expected {want}")
+    check.ob(rule, g, f"deprecation report under `{unparse(g.test)[:70]}`", not bad, "4 of 4 cells" if not bad else "; ".join(bad))
